@@ -231,14 +231,14 @@ pub fn dyn_attr(kind: i64, repr: i64, i: usize) -> AnyAttribute {
 
 /// all chunks of the chosen server form; the futures of Suspends pending on the server complete (oldest
 /// first) whenever the stream stalls; local ones never do
-fn server_html(v: &V, form: i64) -> String {
+fn server_html<T: RenderHtml>(make: &dyn Fn() -> T, form: i64) -> String {
     use futures::Stream;
     if form == 0 {
-        return mk(v).to_html();
+        return make().to_html();
     }
     SENDERS.with(|s| s.borrow_mut().clear());
     STREAMING.with(|s| s.set(true));
-    let view = mk(v);
+    let view = make();
     let stream = if form == 1 { view.to_html_stream_in_order() } else { view.to_html_stream_out_of_order() };
     let mut stream = Box::pin(stream);
     let waker = futures::task::noop_waker();
@@ -293,17 +293,59 @@ fn complete_id(id: Option<i64>) -> bool {
 }
 
 pub fn run_reactive(c: &Sexp) -> Sexp {
-    let form = c.at(1).num();
-    let v = dec_view(c.at(2));
+    use tachys::html::{attribute::dir, class::class, style::style};
     init_sigs(&c.at(3).nums());
     FLAT.with(|f| f.set(true));
+    let vs = c.at(2);
+    if vs.at(0).num() != 31 {
+        let v = dec_view(vs);
+        return reactive_flow(&|| mk(&v), c);
+    }
+    // `(31 (kind repr sig) rest)`: a TYPED root `<div ATTR>{rest}</div>` whose attribute is a closure (`FnMut`,
+    // repr 0) or an `Arc<dyn Fn>` (repr 1): erased, both would be stored as a SharedReactiveFunction
+    let (kind, repr, i) = (vs.at(1).at(0).num(), vs.at(1).at(1).num(), vs.at(1).at(2).num() as usize);
+    let rest = dec_view(vs.at(2));
+    macro_rules! two {
+        ($field:ident, $t:ty, $o:ty, $map:expr, $x:ident => $attr:expr) => {{
+            if repr == 0 {
+                reactive_flow(
+                    &|| {
+                        let a: ArcRwSignal<$t> = sig(i).$field;
+                        let $x = move || -> $o { ($map)(a.get()) };
+                        div().add_any_attr($attr).child(mk(&rest))
+                    },
+                    c,
+                )
+            } else {
+                reactive_flow(
+                    &|| {
+                        let a: ArcRwSignal<$t> = sig(i).$field;
+                        let $x: Arc<dyn Fn() -> $o + Send + Sync> = Arc::new(move || ($map)(a.get()));
+                        div().add_any_attr($attr).child(mk(&rest))
+                    },
+                    c,
+                )
+            }
+        }};
+    }
+    match kind {
+        10 => two!(n, i64, String, text_of, x => dir(x)),
+        11 => two!(t, String, String, |v: String| v, x => class(x)),
+        12 => two!(b, bool, bool, |v: bool| v, x => class(("on", x))),
+        13 => two!(t, String, String, |v: String| format!("{}px", &v[1..]), x => style(("width", x))),
+        _ => two!(t, String, String, |v: String| format!("width:{}px", &v[1..]), x => style(x)),
+    }
+}
+
+fn reactive_flow<T: RenderHtml>(make: &dyn Fn() -> T, c: &Sexp) -> Sexp {
+    let form = c.at(1).num();
 
     let server_owner = Owner::new();
     let html = {
         // the server renders without an observer: no "untracked read" diagnostics on stderr (the driver
         // reads stderr and stdout as one stream)
         let _zone = reactive_graph::diagnostics::SpecialNonReactiveZone::enter();
-        server_owner.with(|| server_html(&v, form))
+        server_owner.with(|| server_html(make, form))
     };
     server_owner.cleanup();
     drop(server_owner);
@@ -315,7 +357,7 @@ pub fn run_reactive(c: &Sexp) -> Sexp {
     SENDERS.with(|s| s.borrow_mut().clear());
     let m0 = ndom::mutations();
     let hyd_owner = Owner::new();
-    let hyd = hyd_owner.with(|| catch_unwind(AssertUnwindSafe(|| mk(&v).hydrate_from::<true>(&root))));
+    let hyd = hyd_owner.with(|| catch_unwind(AssertUnwindSafe(|| make().hydrate_from::<true>(&root))));
     let nops = ndom::mutations() - m0;
     let st = match hyd {
         Ok(st) => st,
@@ -328,7 +370,7 @@ pub fn run_reactive(c: &Sexp) -> Sexp {
 
     let root2 = Dom::create_element("div", None);
     let twin_owner = Owner::new();
-    let mut st2 = twin_owner.with(|| mk(&v).build());
+    let mut st2 = twin_owner.with(|| make().build());
     st2.mount(&root2, None);
     CLIENT_PENDING.with(|s| s.set(false));
 
